@@ -62,13 +62,13 @@ static void
 orc_x86_compiler_max_loop_shift (OrcX86Target *t, OrcCompiler *c)
 {
   int i;
-  int n = 2;
+  int n = t->register_size / c->max_var_size;
 
-  for (i = 1; i; i++) {
-    if ((t->register_size / c->max_var_size) == n)
-      break;
-    n *= 2;
-  } 
+  /* loop_shift is log2 of the number of elements per register; a variable
+   * as wide as the register (e.g. 64-bit on MMX) gives 0 */
+  for (i = 0; n > 1; i++) {
+    n >>= 1;
+  }
   c->loop_shift = i;
 }
 
